@@ -61,7 +61,7 @@ CHECKS = {
              'record class hierarchies with the parent class exercised first), attribute aliases and the flag names '
              'of every value 0..255 of the library\'s three flag enums and of generated enums (name parses back; None only when the value '
              'is no union of members) are checked by TLC on recorded observations.',
-        note='Trusted: TLC, the projection of the real objects. Integer-valued coordinates; a 4x4 window of the 128x128 map.',
+        note='Every attribute alias the library declares is discovered by walking its classes and probed in both directions; generated flag enums include enums extending another enum and overriding a member. Trusted: TLC, the projection of the real objects. Integer-valued coordinates; a 4x4 window of the 128x128 map.',
         design='5/C20'),
     'C19': dict(
         technique='TLA+ model of the token (AuthToken.tla): one transition per (stored-field subset, operation, reply status x body '
@@ -109,7 +109,7 @@ CHECKS = {
              'SignedHex(SHA1(utf8(id) o secret o key)). The same is required of the string LoginReactor.react hands to the '
              'token\'s join for the secret the key holder recovers and the key bytes the server sent, in three encodings the '
              'client accepts (SubjectPublicKeyInfo, bare PKCS#1, SubjectPublicKeyInfo without NULL parameters).',
-        note='Trusted: TLC arithmetic and Bitwise overrides. hashlib is checked, not trusted. The full login around the join is '
+        note='A token stand-in whose first join is refused and whose refresh succeeds is used in a quarter of the login-level observations: every hash handed to join is judged. Trusted: TLC arithmetic and Bitwise overrides. hashlib is checked, not trusted. The full login around the join is '
              'C10\'s.',
         design='5/C17'),
     'C14': dict(
@@ -123,7 +123,7 @@ CHECKS = {
              'scenarios (all with long call logs, a seeded sample of the rest) run against the real code; the handler call log with '
              'the exception each handler saw, the final handler\'s argument, connection.exception, whether run() re-raised, the '
              'socket closed at the peer, the cleared thread slot and a following connect() are compared with the model.',
-        note='Trusted: TLC, scheduler and virtual primitives, peer codec. Chains of 4 handlers are not generated.',
+        note='Also: the re-raised exception must be the last exception of the chain; a packet queued by the failing listener and a raising outgoing listener must not be reached by the fault\'s clean-up. Trusted: TLC, scheduler and virtual primitives, peer codec. Chains of 4 handlers are not generated.',
         design='5/C14'),
     'C12': dict(
         technique='TLA+ model of concurrent writers (ConnWriter.tla) with all interleavings checked by TLC (the variant without the '
@@ -139,7 +139,7 @@ CHECKS = {
              'per-thread reordering, a close before the flush, bytes after an immediate disconnect, lost forced writes, and an '
              'undecodable stream. Writers also race an encrypted login (forced write + cipher swap under the lock), and bursts of '
              '301-620 queued packets - more than the networking thread\'s 300-packet write batch - precede a non-immediate disconnect.',
-        note='Every client frame of every execution is also judged by the connection-state grammar Trace_Session.tla. Trusted: TLC, scheduler and virtual primitives, CPython deque atomicity, the peer\'s deframer. Writes issued after the '
+        note='Also: user-defined packets whose serialisation force-writes another packet on the same connection (re-entrant write lock). Every client frame of every execution is also judged by the connection-state grammar Trace_Session.tla. Trusted: TLC, scheduler and virtual primitives, CPython deque atomicity, the peer\'s deframer. Writes issued after the '
              'connection has been closed are outside the contract.',
         design='5/C12'),
     'C16': dict(
@@ -157,7 +157,7 @@ CHECKS = {
              'history <= 4 and thousands of two-thread scenarios with real threads under a token-passing scheduler (virtual lock, '
              'socket with separate read / write halves, select, queue, thread start/join; servers that accept, refuse, disconnect, close '
              'or stall in the middle of a frame); every execution is judged event by event by the contract.',
-        note='Trusted: TLC, the scheduler and virtual primitives (semantics observed on real sockets), CPython atomicity of attribute '
+        note='Lifecycle servers announce compression at random and C16 owns the session grammar (Trace_Session): a reconnect that opens with an undecodable handshake has not connected again. Trusted: TLC, the scheduler and virtual primitives (semantics observed on real sockets), CPython atomicity of attribute '
              'access. API bodies are atomic in the model because the code holds the write lock throughout. An extra invariant '
              '(NoCrossTeardown) fails in the model: observation outside the listed properties, recorded in DESIGN.md.',
         design='5/C16'),
@@ -215,7 +215,7 @@ CHECKS = {
              'configurations one and the same callable is registered for several listeners of a list) '
              'code with the registration order shuffled across lists and the exact call log and the answers the peer saw compared; '
              'random configurations with up to 3 listeners per list are judged by TLC running the model from the recorded configuration.',
-        note='Trusted: TLC, virtual socket layer, peer codec. Listeners are registered while the networking thread is idle.',
+        note='Also: early listeners that call disconnect() on their own connection (only \'ignore\' stops stages: DisconnectingListenerStopsNothing). Trusted: TLC, virtual socket layer, peer codec. Listeners are registered while the networking thread is idle.',
         design='5/C13'),
     'C09': dict(
         technique='TLA+ model of construction / negotiation / status queries (SessionNegotiate.tla) explored exhaustively; every '
@@ -229,7 +229,7 @@ CHECKS = {
              'versions given as names or numbers over four protocol maps (incl. 2^30-flagged numbers, first and last supported); the '
              'frames the peer decoded on each TCP connection, the connection count, the surfaced exception (class, server_protocol, '
              'wording supported/allowed), handler calls, latency sign, close and exit callback are compared with the model.',
-        note='Every client frame of every execution is also judged by the connection-state grammar Trace_Session.tla. Trusted: TLC, virtual socket layer, peer codec. The status-phase handshake may carry any allowed version (contract); the '
+        note='The scenarios are re-run after the supported-version table has been changed at run time (one version added, one withdrawn, initglobals()). Every client frame of every execution is also judged by the connection-state grammar Trace_Session.tla. Trusted: TLC, virtual socket layer, peer codec. The status-phase handshake may carry any allowed version (contract); the '
              'model says the latest. Default handlers are observed through captured stdout.',
         design='5/C09'),
     'C10': dict(
@@ -247,7 +247,7 @@ CHECKS = {
              'Runs of plugin requests are sent one at a time and back to back (also back to back with the encryption request that '
              'follows them); the server key comes in three encodings; disconnect reasons cover JSON objects, bare JSON '
              'strings / arrays / null / numbers and non-JSON text.',
-        note='Every client frame of every execution is also judged by the connection-state grammar Trace_Session.tla. Trusted: TLC, virtual socket layer, peer codec, cryptography package for RSA and the AES block, hashlib for the join '
+        note='Also: logins that fail after compression / encryption were switched on and are retried from an exception handler must start from scratch. Every client frame of every execution is also judged by the connection-state grammar Trace_Session.tla. Trusted: TLC, virtual socket layer, peer codec, cryptography package for RSA and the AES block, hashlib for the join '
              'hash oracle (C17 checks that against TLA+). Thresholds 0,1,64,256,2^31-1 with user-handler payloads sized '
              'thr-1/thr/thr+1.',
         design='5/C10'),
@@ -265,7 +265,7 @@ CHECKS = {
              'Also: two sessions in a row on one Connection object with different compression settings (each judged as a session '
              'of its own; also with the first session dropped behind unanswered keep-alives), two Connection objects alive at once '
              'on different versions, and the play disconnect packet arriving while queued writes are pending under random schedules.',
-        note='Every client frame of every execution is also judged by the connection-state grammar Trace_Session.tla. Trusted: TLC, the virtual socket/select/lock layer (semantics taken from real sockets), the peer codec, zlib. Packet '
+        note='Also: play-state set-compression in mid-history at protocols up to 47; angles outside [0,360) in the pre-107 echo; a burst answered by the server\'s disconnect packet (deferred write error cancelled). Every client frame of every execution is also judged by the connection-state grammar Trace_Session.tla. Trusted: TLC, the virtual socket/select/lock layer (semantics taken from real sockets), the peer codec, zlib. Packet '
              'ids per version come from the code\'s tables (C07 pins them at releases). Single networking thread: schedules are '
              'not the quantifier here (C12/C16).',
         design='5/C11'),
@@ -294,7 +294,7 @@ CHECKS = {
              'layout the code uses at each of the known protocol versions and TLC checks the vector is XYZ up to '
              '404, XZY from 477 with a single switch; every row is replayed at representative versions of its layout '
              'and seeded random triples at random versions are recomputed by TLC.',
-        note='Trusted: TLC, JSON hand-over; chronological rank from the code\'s own version list (C08 checks it). '
+        note='Also: a packet carrying another era\'s context written through Connection.write_packet must hold the position word of the connection\'s era. Trusted: TLC, JSON hand-over; chronological rank from the code\'s own version list (C08 checks it). '
              'Full boundary product only in the thorough tier; quick uses a reduced product plus full per-axis sweeps.',
         design='5/C04'),
     'C06': dict(
@@ -309,7 +309,7 @@ CHECKS = {
              'descending, zig-zag and shuffled version orders (must stay total and injective whatever was built before) and the '
              'reactors are rebuilt on one context walked across all versions; reactors of all versions are kept alive and re-checked '
              'after the others have been built. Exhaustive over the quantifier of the property.',
-        note='Trusted: TLC, JSON hand-over. Nine collisions inside snapshot windows are recorded as known findings '
+        note='Application subclasses of every registered class and library base are defined before the tables are rebuilt: none may appear in a table. Trusted: TLC, JSON hand-over. Nine collisions inside snapshot windows are recorded as known findings '
              '(known_findings.json); entries so excused are excluded from the TLC walk, every other collision alarms.',
         design='5/C06'),
     'C02': dict(
